@@ -247,6 +247,9 @@ func isRunnerType(r *an.Run, t types.Type) bool {
 	if p, ok := t.(*types.Pointer); ok {
 		t = p.Elem()
 	}
+	if _, named := t.(*types.Named); !named {
+		return false // also go/ssa's private iterator type, which go/types cannot compare
+	}
 	return types.Identical(t, rt)
 }
 
